@@ -697,7 +697,7 @@ func runConcurrentRetry(k *vf.Case, kind string) {
 // ---------------------------------------------------------------------------------------------
 // tables
 
-var httpCodes = []int{200, 202, 204, 400, 401, 403, 404, 408, 413, 429, 500, 501, 502, 503, 504}
+var httpCodes = []int{200, 202, 204, 400, 401, 403, 404, 408, 413, 429, 500, 501, 502, 503, 504, 505, 507, 511, 599} // everything above 504 is as terminal as 500
 var grpcCodes = []codes.Code{codes.OK, codes.Canceled, codes.Unknown, codes.InvalidArgument, codes.DeadlineExceeded, codes.NotFound, codes.AlreadyExists, codes.PermissionDenied,
 	codes.ResourceExhausted, codes.FailedPrecondition, codes.Aborted, codes.OutOfRange, codes.Unimplemented, codes.Internal, codes.Unavailable, codes.DataLoss, codes.Unauthenticated}
 
